@@ -51,4 +51,11 @@ theorem signBytesHRS_is_verdict (m : Signer.Rec) (h r s : Int) (b : Bytes) :
 theorem signer_steps : Gen.c_stepNone = 0 ∧ Gen.c_stepPropose = 1 ∧ Gen.c_stepPrevote = 2 ∧ Gen.c_stepPrecommit = 3 :=
   ⟨rfl, rfl, rfl, rfl⟩
 
+/-- `PrivValidator.save` reaches the durable write on every call with a file path - no other branch
+    returns before it (the signer model's `save` is the write, whatever was written before) -/
+theorem privval_save_always_writes (b : Bool) :
+    Gen.t_privval_save (eq_privVal_filePath_ := b) = "reach" ↔ b = false := by
+  unfold Gen.t_privval_save
+  cases b <;> simp
+
 end AnnVerif.Ties
